@@ -152,7 +152,7 @@ func (w *c15World) fault() {
 	for _, ch := range w.chans {
 		got := w.read(ch)
 		if !rtEqual(got, before[ch.id]) {
-			r.FailSig("row-changed-by-restart", ch.id, fmt.Sprintf("channel %s: row before restart %s, after %s (every ApplyBatch had returned)", ch.id, rtString(before[ch.id]), rtString(got)), nil)
+			r.FailSig("row-changed-by-restart", "", fmt.Sprintf("channel %s: row before restart %s, after %s (every ApplyBatch had returned)", ch.id, rtString(before[ch.id]), rtString(got)), nil)
 			return
 		}
 	}
@@ -291,7 +291,7 @@ func (w *c15World) commit(maxBatch, dupBias int) {
 		r.Probe("batch_error_fallback")
 		for _, ch := range w.chans {
 			if got := w.read(ch); !rtEqual(got, pre[ch.id]) {
-				r.FailSig("failed-batch-side-effect", ch.id, fmt.Sprintf("ApplyBatch returned %v but row %s changed: %s -> %s", out.err, ch.id, rtString(pre[ch.id]), rtString(got)), nil)
+				r.FailSig("failed-batch-side-effect", "", fmt.Sprintf("ApplyBatch returned %v but row %s changed: %s -> %s", out.err, ch.id, rtString(pre[ch.id]), rtString(got)), nil)
 				return
 			}
 		}
@@ -381,12 +381,19 @@ func (w *c15World) commit(maxBatch, dupBias int) {
 		post := w.read(ch)
 		if pre[ch.id] != nil && post != nil && !w.deleted[ch.id] {
 			if class, detail := rtRegression(*pre[ch.id], *post); class != "" {
-				r.FailSig(class, ch.id, fmt.Sprintf("channel %s across index %d..%d: %s; before %s after %s", ch.id, cmds[0].Index, w.index, detail, rtString(pre[ch.id]), rtString(post)), nil)
+				sig := ""
+				if class == "leader-epoch-decreased" {
+					sig = "same-channel-epoch"
+					if post.ChannelEpoch > pre[ch.id].ChannelEpoch {
+						sig = "channel-epoch-raised"
+					}
+				}
+				r.FailSig(class, sig, fmt.Sprintf("channel %s across index %d..%d: %s; before %s after %s", ch.id, cmds[0].Index, w.index, detail, rtString(pre[ch.id]), rtString(post)), nil)
 				return
 			}
 		}
 		if !rtEqual(post, w.ref[ch.id]) {
-			r.FailSig("row-differs-from-reference", ch.id, fmt.Sprintf("channel %s after index %d: stored %s, reference %s (before the batch: %s)", ch.id, w.index, rtString(post), rtString(w.ref[ch.id]), rtString(pre[ch.id])), nil)
+			r.FailSig("row-differs-from-reference", "", fmt.Sprintf("channel %s after index %d: stored %s, reference %s (before the batch: %s)", ch.id, w.index, rtString(post), rtString(w.ref[ch.id]), rtString(pre[ch.id])), nil)
 			return
 		}
 		if w.deleted[ch.id] && post != nil {
@@ -394,7 +401,7 @@ func (w *c15World) commit(maxBatch, dupBias int) {
 		}
 		if refusedOnly[ch.id] && !acceptedAny[ch.id] {
 			if !bytes.Equal(channelBytes(preSnaps, ch.id), channelBytes(postSnaps, ch.id)) {
-				r.FailSig("refused-write-changed-row", ch.id, fmt.Sprintf("channel %s received only refused/no-op writes in index %d..%d but its stored bytes changed", ch.id, cmds[0].Index, w.index), nil)
+				r.FailSig("refused-write-changed-row", "", fmt.Sprintf("channel %s received only refused/no-op writes in index %d..%d but its stored bytes changed", ch.id, cmds[0].Index, w.index), nil)
 				return
 			}
 			r.Probe("refused_row_bytes_identical")
